@@ -108,6 +108,8 @@ class Tr:
             a, b = self.expr(e.left), self.expr(e.comparators[0])
             op = {ast.Eq: 'EEq', ast.NotEq: 'ENe', ast.Lt: 'ELt', ast.LtE: 'ELe', ast.Gt: 'EGt', ast.GtE: 'EGe',
                   ast.In: 'EIn', ast.NotIn: 'ENotIn'}.get(type(e.ops[0]))
+            if isinstance(e.ops[0], (ast.Is, ast.IsNot)) and isinstance(e.comparators[0], ast.Constant) and e.comparators[0].value is None:
+                op = 'EEq' if isinstance(e.ops[0], ast.Is) else 'ENe'          # x is None / x is not None
             if op is None:
                 raise Untranslatable('comparison %s' % type(e.ops[0]).__name__)
             return '(%s %s %s)' % (op, a, b)
@@ -433,7 +435,7 @@ def literal_dicts(path):
 
 
 FDIV = {'g_LZW', 'g_LC', 'g_CWF'}
-QDIV = {'g_sigma', 'g_deltaForm', 'g_delta', 'g_kappa'}
+QDIV = {'g_sigma', 'g_deltaForm', 'g_delta', 'g_kappa', 'g_Fplus', 'g_Fminus', 'g_FCR', 'g_NCPR'}
 
 FUNCS = [
     # (Coq name, file, class, function, prefixes under which the data module's names are visible there)
@@ -459,6 +461,13 @@ FUNCS = [
     ('g_Omega_seq', 'localcider/backend/sequence.py', 'Sequence', 'Omega_seq', []),
     ('g_parseSeqFile', 'localcider/backend/seqfileparser.py', 'SequenceFileParser', 'parseSeqFile', []),
     ('g_init_core', 'localcider/backend/sequence.py', 'Sequence', '__init__', [], ('upto', 'self.dmax = dmax')),
+    ('g_countPos', 'localcider/backend/sequence.py', 'Sequence', 'countPos', []),
+    ('g_countNeg', 'localcider/backend/sequence.py', 'Sequence', 'countNeg', []),
+    ('g_countNeut', 'localcider/backend/sequence.py', 'Sequence', 'countNeut', []),
+    ('g_Fplus', 'localcider/backend/sequence.py', 'Sequence', 'Fplus', []),
+    ('g_Fminus', 'localcider/backend/sequence.py', 'Sequence', 'Fminus', []),
+    ('g_FCR', 'localcider/backend/sequence.py', 'Sequence', 'FCR', []),
+    ('g_NCPR', 'localcider/backend/sequence.py', 'Sequence', 'NCPR', []),
     ('g_sigma', 'localcider/backend/sequence.py', 'Sequence', 'sigma', []),
     ('g_deltaForm', 'localcider/backend/sequence.py', 'Sequence', 'deltaForm', []),
     ('g_delta', 'localcider/backend/sequence.py', 'Sequence', 'delta', []),
